@@ -28,12 +28,13 @@ RULE = (
 )
 EXHAUSTIVE_PART = "all strings of length <= 4 (quick, 4681) / <= 5 (thorough, 37449) over 8 symbols in 6 placements"
 ASSUMPTIONS = ["msdparser.parse_msd tokenizes correctly", "values inside msdparser's escaping gaps are excluded by the property"]
-MONITORS = ["enum_roundtrip", "model_equality", "roundtrip", "restringify", "loads_detects_sm", "tokenizer_structure", "serialize_file"]
+MONITORS = ["enum_roundtrip", "model_equality", "roundtrip", "restringify", "loads_detects_sm", "tokenizer_structure", "serialize_file", "second_parse_after_editing_the_first"]
 REQUIRED = ["key_only", "multi_value_with_colons", "value_has_colon", "value_has_semicolon", "value_has_backslash",
             "value_has_dslash", "value_has_lf", "value_has_crlf", "extradata", "charts_reordered", "crosses_4096",
             "backslash_without_other_meta", "str_mid_history_then_extradata_edit", "corpus_start",
             "meta_token_on_8192_boundary", "chart_fields_assigned_out_of_order", "first_key_is_a_near_miss_of_VERSION",
-            "property_key_is_a_near_miss_of_NOTES"]
+            "property_key_is_a_near_miss_of_NOTES", "simfile_with_32_or_more_charts",
+            "chart_notes_beyond_65536_characters_with_a_non_lf_separator"]
 
 
 def anchors():
@@ -182,6 +183,10 @@ def check_enum(ctx, case):
                               case={"kind": "enum", "n0": n, "n1": n + 1})
 
 
+def first_key_of(m):
+    return next(iter(m.d), None)
+
+
 def check(ctx, case):
     import simfile
     from msdparser import parse_msd
@@ -198,6 +203,10 @@ def check(ctx, case):
     if E.real_state(s, KIND) != E.model_state(m, KIND):
         ctx.violation("serialize:modified-the-simfile", {"after_str": repr(E.real_state(s, KIND))[:600], "model": repr(E.model_state(m, KIND))[:600]})
     nontrivial = features(ctx, m, case, text)
+    if len(m.charts) >= 32:
+        ctx.feat("simfile_with_32_or_more_charts")
+    if any(len(mc.six()[5]) > 65536 and any(ch in mc.six()[5] for ch in "\r\x0c\u2028") for mc in m.charts):
+        ctx.feat("chart_notes_beyond_65536_characters_with_a_non_lf_separator")
     ctx.begin(case, nontrivial=nontrivial, sample={"start": case["start"], "n_ops": len(case["ops"]), "ops": case["ops"][:6], "text": text[:300]})
 
     # (4) serialize(file) writes the same text
@@ -230,6 +239,32 @@ def check(ctx, case):
     # (3) second serialization reproduces the text
     ctx.mon("restringify")
     ctx.expect(str(r) == text, "restringify:differs", first=text[:400], second=str(r)[:400])
+
+    # (3b) the first parse result is scribbled on in place (properties, chart fields, the extra-component lists, the
+    # chart list); parsing the same text again must still give the model: results of two parses share nothing
+    if ok:
+        ctx.mon("second_parse_after_editing_the_first")
+        r["SCRIBBLE"] = "x"
+        for k in list(r)[:2]:
+            r[k] = "scribbled"
+        for rc in r.charts:
+            rc.description = "scribbled"
+            if rc.extradata is not None:
+                rc.extradata.append("scribble")
+                if len(rc.extradata) > 1:
+                    rc.extradata[0] = "scribbled"
+        if r.charts:
+            r.charts.pop()
+        try:
+            r2 = simfile.loads(text) if ctx.evaluations % 2 and first_key_of(m) != "VERSION" else SMSimfile(string=text)
+            ok2 = type(r2) is SMSimfile and list(r2.items()) == m.items() and len(r2.charts) == len(m.charts) and all(
+                [rc.stepstype, rc.description, rc.difficulty, rc.meter, rc.radarvalues, rc.notes] == mc.six()
+                and list(rc.extradata or []) == list(mc.extra or []) for rc, mc in zip(r2.charts, m.charts))
+            ctx.expect(ok2 and str(r2) == text, "second-parse:differs-after-the-first-result-was-edited",
+                       items=repr(list(r2.items()))[:300], extras=repr([rc.extradata for rc in r2.charts])[:300])
+        except Exception as e:
+            ctx.violation(f"second-parse:raised:{type(e).__name__}", {"exc": repr(e)})
+        r = SMSimfile(string=text)
 
     # (5) auto-detection
     first_key = next(iter(m.d), None)
